@@ -310,3 +310,19 @@ pub fn c34_raft_config_composition() {
     std::mem::forget(r);
     std::mem::forget(c);
 }
+
+/// C26 thorough tier: the single-promotion obligation at full practical width (n up to 2^40 voters).
+#[kani::proof]
+#[kani::unwind(2)]
+pub fn c26_allowed_single_promotion_is_safe_wide() {
+    let n: usize = kani::any();
+    let avail: usize = kani::any();
+    kani::assume(n >= 1 && n <= (1usize << 40) && avail <= (1usize << 40));
+    let k = calculate_safe_batch_size(n, avail);
+    kani::assume(k <= 1);
+    let qo = cluster::majority_count(n);
+    let qn = cluster::majority_count(n + k);
+    assert!(qo + qn > n + k, "C26:old_and_new_majorities_disjoint_for_single_promotion");
+    kani::cover!(k == 1 && n > (1usize << 39), "single promotion in a huge cluster");
+    kani::cover!(k == 0 && avail == 1, "single learner held back for parity");
+}
